@@ -1420,8 +1420,13 @@ func (g *vGen) world() *vWorld {
 			w.fState = []string{"f", "e"}[g.rng.Intn(2)]
 		}
 		switch {
-		case g.p(45):
 		case g.p(70) && len(docs) > 0:
+			// what an honest server of the first scripted document would send
+			if strings.Contains(docs[0].flags, "i") {
+				w.fIss = docs[0].issuer
+			}
+		case g.p(30):
+		case g.p(60) && len(docs) > 0:
 			w.fIss = docs[g.rng.Intn(len(docs))].issuer
 		case g.p(40):
 			w.fIss = as
@@ -1542,6 +1547,12 @@ func flowTags(w *vWorld, obs string) []string {
 		mode += "d"
 	}
 	tags = append(tags, "mode="+mode, fmt.Sprintf("st=%d", w.status))
+	if strings.Contains(obs, "inst=1") {
+		tags = append(tags, "installed")
+	}
+	if w.hm {
+		tags = append(tags, "malformed-header")
+	}
 	if w.fetch == "R" && w.fState != "g" {
 		tags = append(tags, "forged-state")
 	}
@@ -1648,7 +1659,7 @@ func TestVerifOAuthFlow(t *testing.T) {
 	if runCorpusAndReplay(out, "auth ") {
 		return
 	}
-	n := verifN(4000, 60000)
+	n := verifN(10000, 60000)
 	rng := verifRng(15)
 	for i := 0; i < n; i++ {
 		g := &vGen{rng: rng}
@@ -1775,7 +1786,7 @@ func TestVerifOAuthChallenge(t *testing.T) {
 	if runCorpusAndReplay(out, "www") {
 		return
 	}
-	n := verifN(6000, 150000)
+	n := verifN(10000, 150000)
 	rng := verifRng(16)
 	for i := 0; i < n; i++ {
 		cs := fmt.Sprintf("w%d", i)
